@@ -141,3 +141,9 @@ Definition select_version (g : vgame) (inv : list vdir) (parts : list string) : 
         end
       end
   end.
+
+(* ---- C18: where get_definitions may look.  helper.get_definitions builds the PATH
+   os.path.join(BASE_DIR, 'versions', version.replace('.', '_')): every '.' of the (file-controlled) version string is
+   replaced first, so no path component can be '..'; and it is only reached after get_controller accepted the
+   four- or three-component name as a module name, which cannot start with '/'. ---- *)
+Definition defs_path (v : string) : string := replace_all "." "_" v.
